@@ -24,6 +24,8 @@ VIEWS = {
     "C20": ["mls", "chain", "snaps"],
     "C03": ["st", "mls", "msgs", "res"],
     "C18": ["mls", "msgs", "last"],
+    "C04": ["mls", "msgs", "res"],
+    "C05": ["st", "mls", "chain", "members", "mdata", "pend", "props", "res"],
     "C06": ["st", "mls", "chain", "members", "mdata", "pend", "props", "msgs", "rec", "res"],
     "C16": ["st", "mls", "chain", "members", "mdata", "rec", "pend", "props", "res"],
     "C11": ["st", "mls", "chain", "members", "pend", "props", "mdata", "rec", "last", "msgs", "proc", "snaps", "res", "out"],
@@ -448,4 +450,42 @@ def plan_C06(ctx, rt):
                            "non-trivial = a hostile event was published and some call was refused")
 
 
-PLANS = {"C06": plan_C06, "C14": plan_C14, "C16": plan_C16, "C03": plan_C03, "C18": plan_C18, "C11": plan_C11, "C01": plan_C01, "C02": plan_C02, "C07": plan_C07, "C08": plan_C08, "C20": plan_C20}
+def adversary_profiles():
+    q = [dict(n=8, steps=80, backend="mixed", regime="causal", profile="members", adv=1),
+         dict(n=8, steps=80, backend="sql", regime="causal", profile="members", adv=1, retention=2),
+         dict(n=8, steps=70, backend="mem", regime="causal", profile="core", adv=1)]
+    t = [dict(n=40, steps=90, backend=["mem", "sql", "mixed"][i % 3], regime="causal", profile=["members", "core"][i % 2],
+              adv=1, observers=1, retention=[5, 2, 1][i % 3]) for i in range(8)]
+    return {"quick": q, "thorough": t}
+
+
+def nt_forge(h):
+    return any(d["op"] == "Forge" and d["res"] == "Ok" for d in h)
+
+
+def nt_raw(h):
+    return any(d["op"] == "Raw" and d["res"] == "Ok" for d in h)
+
+
+ASSUME_ADV = ["the adversary is a real group member whose client bypasses mdk's sender-side checks: rumors with arbitrary pubkey / pre-set id "
+              "through create_message; commits and proposals built directly with OpenMLS (group-data change, removal, self-promotion to "
+              "admin, Remove proposal) wrapped like mdk does; identity-changing updates, PSK and external senders are not generated yet"]
+
+
+def plan_C04(ctx, rt):
+    return run_marmot(ctx, rt, invariants=["InvC04"], properties=["ActC04", "ActC02"], view="C04", mc=MC_CORE,
+                      profiles=adversary_profiles(), nontrivial=nt_forge, assumptions=ASSUME_MARMOT + ASSUME_ADV,
+                      rule="membership histories with a malicious member: rumors claiming another member's pubkey, rumors with a random pre-set id, "
+                           "rumors pre-setting the id of an existing message of somebody else, duplicated deliveries (replayed ciphertexts); "
+                           "non-trivial = at least one forged rumor was published")
+
+
+def plan_C05(ctx, rt):
+    return run_marmot(ctx, rt, invariants=["InvC05"], view="C05", mc=MC_CORE,
+                      profiles=adversary_profiles(), nontrivial=nt_raw, assumptions=ASSUME_MARMOT + ASSUME_ADV,
+                      rule="membership histories with a malicious member building commits directly with the MLS library (non-admin group-data "
+                           "change, non-admin removal, self-promotion to admin) and Remove proposals, interleaved with honest admin operations; "
+                           "non-trivial = at least one raw commit/proposal was published")
+
+
+PLANS = {"C04": plan_C04, "C05": plan_C05, "C06": plan_C06, "C14": plan_C14, "C16": plan_C16, "C03": plan_C03, "C18": plan_C18, "C11": plan_C11, "C01": plan_C01, "C02": plan_C02, "C07": plan_C07, "C08": plan_C08, "C20": plan_C20}
